@@ -1,11 +1,13 @@
 (* C04 — Fantasy models equal conditioning from scratch; the source is untouched.
    Statement file: theorems, [exact lemma], Print Assumptions.  Nothing else.
    All theorems hold for every field K (Qc executable, R), all sizes n, m, t and all histories. *)
-From Coq Require Import Arith List ZArith QArith Qcanon.
-From GPV Require Import Base.LinAlg Base.Exec Models.C01_posterior Proofs.C01_posterior
-  Models.C04_fantasy Proofs.C04_fantasy Models.C08_shape Models.C04_mtshape Proofs.C04_mtshape
+From Coq Require Import Arith List ZArith QArith Qcanon Reals.
+From GPV Require Import Base.LinAlg Base.Exec Base.Expr Base.Psd Models.C01_posterior Proofs.C01_posterior
+  Models.C04_fantasy Proofs.C04_fantasy Proofs.C04_schur Models.C08_shape Models.C04_mtshape Proofs.C04_mtshape
   Models.C04_wiski Proofs.C04_wiski.
 Import ListNotations.
+(* Base.Psd loads the R instance of Fld (declared after QcF); the executable examples below are over Qc *)
+Local Existing Instance QcF | 0.
 
 (* [a; b] (fant_cache_upper / fant_cache_lower) solves the bordered system
    [[A, U^T],[U, S_f]] [a; b] = [r; r_f], for all n, m (Appendix A of DESIGN.md) *)
@@ -40,6 +42,57 @@ Theorem c04_bordered_inverse_correct :
     is_inverse (n + m) (bordered n A Ut U Sf) (bordered_inv n m Ainv U Ut Cinv).
 Proof. intros K. exact (@bordered_inv_correct K). Qed.
 Print Assumptions c04_bordered_inverse_correct.
+
+(* schur_pd: the Schur complement S_f - U A^-1 U^T that get_fantasy_strategy hands to the Cholesky
+   factorisation is positive definite (and symmetric) whenever the bordered train covariance
+   [[A, U^T],[U, S_f]] of the concatenated data is symmetric positive definite; all n, m, any ordered
+   field, any inverse of A.  [PD] (Base/Psd.v) is the quadratic-form definition:
+   PD n M := (forall x, 0 <= x^T M x) /\ (forall x, x <> 0 on [0,n) -> x^T M x <> 0). *)
+Theorem c04_schur_pd :
+  forall (K : Fld) (O : OrdFld K) n m A U Ut Sf Ainv,
+    symmetric (n + m) (bordered n A Ut U Sf) -> PD (n + m) (bordered n A Ut U Sf) ->
+    is_inverse n A Ainv ->
+    PD m (schur n U (fant_solve n Ainv Ut) Sf).
+Proof. intros K O. exact (@schur_complement_pd K O). Qed.
+Print Assumptions c04_schur_pd.
+
+Theorem c04_schur_symmetric :
+  forall (K : Fld) n m A U Ut Sf Ainv,
+    symmetric (n + m) (bordered n A Ut U Sf) -> is_inverse n A Ainv ->
+    symmetric m (schur n U (fant_solve n Ainv Ut) Sf).
+Proof. intros K. exact (@schur_complement_symmetric K). Qed.
+Print Assumptions c04_schur_symmetric.
+
+(* the old train covariance is the leading block of the new one, hence PD as well: the hypothesis of
+   c04_schur_pd is inherited along a chain of fantasy updates read backwards *)
+Theorem c04_bordered_leading_pd :
+  forall (K : Fld) (O : OrdFld K) n m A U Ut Sf,
+    PD (n + m) (bordered n A Ut U Sf) -> PD n A.
+Proof. intros K O. exact (@bordered_leading_pd K O). Qed.
+Print Assumptions c04_bordered_leading_pd.
+
+(* over R, PD is the textbook strict definition, and the lower-triangular (Cholesky) root of the
+   Schur complement that the code computes exists *)
+Theorem c04_pd_is_strict_positivity :
+  forall n (A : @M RF),
+    @PD RF ROrd n A <-> forall x, @nonzero_vec RF n x -> (0 < @qform RF n A x)%R.
+Proof. exact PD_iff_strict_R. Qed.
+Print Assumptions c04_pd_is_strict_positivity.
+
+Theorem c04_schur_cholesky_exists :
+  forall n m (A U Ut Sf Ainv : @M RF),
+    symmetric (n + m) (bordered n A Ut U Sf) -> @PD RF ROrd (n + m) (bordered n A Ut U Sf) ->
+    is_inverse n A Ainv ->
+    exists G : @M RF,
+      meq m m (mmul m G (mT G)) (schur n U (fant_solve n Ainv Ut) Sf) /\
+      (forall i k, (i < k)%nat -> G i k = 0%R).
+Proof. exact schur_complement_has_cholesky. Qed.
+Print Assumptions c04_schur_cholesky_exists.
+
+Example ex_c04_schur_pd_hyps :
+  symmetric 2 exBr /\ @PD RF ROrd 2 exBr /\ is_inverse 1 (ex1r 2) (ex1r (/ 2)) /\
+  schur 1 (ex1r 1) (fant_solve 1 (ex1r (/ 2)) (ex1r 1)) (ex1r 2) 0%nat 0%nat = (3 / 2)%R.
+Proof. exact ex_schur_pd_hyps_holds. Qed.
 
 (* cat_rows: the updated root Z = [[E,0],[UR,G]] and the updated inverse root
    R' = [[R, -R F^T G^-T],[0, G^-T]] keep the invariant  Z Z^T = A'  and  R' = Z^-T ... *)
